@@ -46,9 +46,13 @@ Definition set_rf_delay (r : rf) (d : Q) : rf :=
 Definition set_gz_delay (g : trap) (d : Q) : trap :=
   mkTrap (g_amp g) (g_rise g) (g_flat g) (g_fall g) (g_area g) (g_flat_area g) d.
 
-(* cheap normalisation used only to keep the fractions of the executable model small: cancels the common
-   factors 2 of numerator and denominator (binary64 inputs are dyadic, so sums of them become fully reduced);
-   Qred2 q == q (Proofs/RfProofs.v) *)
+(* np.sum — specification form *)
+Fixpoint sumQ (l : list Q) : Q := match l with [] => 0 | x :: r => x + sumQ r end.
+
+(* ---- fast forms used by the runner (proved equal to the specification forms in Proofs/RfProofs.v) ----
+   Qred2 cancels the common factors 2 of numerator and denominator (binary64 inputs are dyadic, so sums of them
+   become fully reduced); Qplus_c is Qplus with the products commuted so that Coq's binary multiplication recurses
+   over the (power-of-two) denominators. *)
 Fixpoint strip2 (n d : positive) : positive * positive :=
   match n, d with
   | xO n', xO d' => strip2 n' d'
@@ -60,9 +64,12 @@ Definition Qred2 (q : Q) : Q :=
   | Zpos n => let '(n', d') := strip2 n (Qden q) in Zpos n' # d'
   | Zneg n => let '(n', d') := strip2 n (Qden q) in Zneg n' # d'
   end.
+Definition Qplus_c (x y : Q) : Q :=
+  (QDen y * Qnum x + QDen x * Qnum y)%Z # (Qden x * Qden y).
+Fixpoint sumQ_fast (l : list Q) : Q := match l with [] => 0 | x :: r => Qred2 (Qplus_c x (sumQ_fast r)) end.
 
-(* np.sum *)
-Fixpoint sumQ (l : list Q) : Q := match l with [] => 0 | x :: r => Qred2 (x + sumQ r) end.
+Definition set_rf_signal (r : rf) (s : list Q) : rf :=
+  mkRf s (r_t r) (r_shape_dur r) (r_freq r) (r_phase r) (r_dead r) (r_ring r) (r_delay r) (r_use r).
 
 (* k, k+1, ..., k+n-1 *)
 Fixpoint zrange (k : Z) (n : nat) : list Z :=
@@ -146,13 +153,20 @@ Definition trap_end (g : trap) : Q := trap_event_end (g_delay g) (g_rise g) (g_f
 (* ------------------------------------------------------------------------------------------------
    make_sinc_pulse.py / make_gauss_pulse.py.  [gauss = false]: sinc. *)
 Definition shaped_signal (X : rf_exprs) (w : list Q) (flip_angle dwell pi : Q) : list Q :=
-  let flip := Qred (x_flip X (sumQ w) dwell pi) in                    (* sinc :109, gauss :110 *)
-  map (fun s => x_scale X s flip_angle flip) w.                (* sinc :110, gauss :111 *)
+  let flip := x_flip X (sumQ w) dwell pi in                           (* sinc :109, gauss :110 *)
+  map (fun s => x_scale X s flip_angle flip) w.                       (* sinc :110, gauss :111 *)
+
+(* fast form: the normalisation factor is computed once (x_scale is linear in the sample) *)
+Definition shaped_signal_fast (X : rf_exprs) (w : list Q) (flip_angle dwell pi : Q) : list Q :=
+  let flip := Qred (x_flip X (sumQ_fast w) dwell pi) in
+  let c := Qred (x_scale X 1 flip_angle flip) in
+  map (fun s => s * c) w.
 
 Definition shaped_times (X : rf_exprs) (n : nat) (dwell : Q) : list Q :=
   map (fun k => x_t X (inject_Z k) dwell) (zrange 1 n).        (* sinc :105, gauss :106 *)
 
-Definition make_shaped (gauss : bool) (X : rf_exprs) (S : sys) (pi : Q) (w : list Q)
+Definition make_shaped_gen (sigf : rf_exprs -> list Q -> Q -> Q -> Q -> list Q)
+    (gauss : bool) (X : rf_exprs) (S : sys) (pi : Q) (w : list Q)
     (flip_angle delay duration dwell0 center_pos freq_offset phase_offset bandwidth0 time_bw_product : Q)
     (return_gz : bool) (slice_thickness max_grad max_slew : Q) (use : nat)
   : res (rf * option (trap * trap)) :=
@@ -166,7 +180,7 @@ Definition make_shaped (gauss : bool) (X : rf_exprs) (S : sys) (pi : Q) (w : lis
   let nz := rnd_he (duration / dwell) in                                            (* sinc :104, gauss :105 *)
   let n := Z.to_nat nz in
   if negb (Nat.eqb (length w) n) then Err EEnvLen else
-  let r0 := mkRf (shaped_signal X w flip_angle dwell pi)
+  let r0 := mkRf (sigf X w flip_angle dwell pi)
                  (shaped_times X n dwell)
                  (x_shape_dur X (inject_Z nz) dwell)                                (* sinc :116 *)
                  freq_offset phase_offset (s_rf_dead S) (s_rf_ring S)
@@ -190,8 +204,12 @@ Definition make_shaped (gauss : bool) (X : rf_exprs) (S : sys) (pi : Q) (w : lis
     end
   else Ok (r0, None).
 
+Definition make_shaped := make_shaped_gen shaped_signal.             (* specification: direct transcription *)
+Definition make_shaped_fast := make_shaped_gen shaped_signal_fast.   (* what the runner executes *)
 Definition make_sinc := make_shaped false sinc_x.
 Definition make_gauss := make_shaped true gauss_x.
+Definition make_sinc_fast := make_shaped_fast false sinc_x.
+Definition make_gauss_fast := make_shaped_fast true gauss_x.
 
 (* ------------------------------------------------------------------------------------------------
    make_block_pulse.py *)
@@ -232,12 +250,16 @@ Definition make_block (S : sys) (pi : Q) (flip_angle delay : Q) (duration bandwi
    make_arbitrary_rf.py: [w] is the user's (real) signal *)
 Definition arb_signal (w : list Q) (no_signal_scaling : bool) (flip_angle dwell pi : Q) : list Q :=
   if no_signal_scaling then w                                                       (* :99 *)
-  else let sw := Qred (sumQ w) in map (fun s => arb_scale s sw dwell flip_angle pi) w.                   (* :100 *)
+  else map (fun s => arb_scale s (sumQ w) dwell flip_angle pi) w.                   (* :100 *)
+
+Definition arb_signal_fast (w : list Q) (no_signal_scaling : bool) (flip_angle dwell pi : Q) : list Q :=
+  if no_signal_scaling then w
+  else let c := Qred (arb_scale 1 (Qred (sumQ_fast w)) dwell flip_angle pi) in map (fun s => s * c) w.
 
 Definition arb_times (n : nat) (dwell : Q) : list Q :=
   map (fun k => arb_t (inject_Z k) dwell) (zrange 1 n).                             (* :104 *)
 
-Definition make_arbitrary (S : sys) (pi : Q) (w : list Q)
+Definition make_arbitrary_gen (sigf : list Q -> bool -> Q -> Q -> Q -> list Q) (S : sys) (pi : Q) (w : list Q)
     (flip_angle bandwidth0 delay dwell0 freq_offset phase_offset : Q) (no_signal_scaling : bool)
     (max_grad max_slew : Q) (return_gz : bool) (slice_thickness time_bw_product : Q) (use : nat)
   : res (rf * option trap) :=
@@ -245,7 +267,7 @@ Definition make_arbitrary (S : sys) (pi : Q) (w : list Q)
   let dwell := if Qeqb dwell0 0 then s_rf_raster S else dwell0 in                   (* :92 *)
   let n := length w in                                                              (* :102 *)
   let duration := arb_duration (inject_Z (Z.of_nat n)) dwell in                     (* :103 *)
-  let r0 := mkRf (arb_signal w no_signal_scaling flip_angle dwell pi)
+  let r0 := mkRf (sigf w no_signal_scaling flip_angle dwell pi)
                  (arb_times n dwell)
                  duration                                                           (* :110 *)
                  freq_offset phase_offset (s_rf_dead S) (s_rf_ring S)
@@ -267,6 +289,9 @@ Definition make_arbitrary (S : sys) (pi : Q) (w : list Q)
       Ok (r1, Some gz1)
     end
   else Ok (r0, None).
+
+Definition make_arbitrary := make_arbitrary_gen arb_signal.            (* specification *)
+Definition make_arbitrary_fast := make_arbitrary_gen arb_signal_fast.  (* what the runner executes *)
 
 (* ------------------------------------------------------------------------------------------------
    make_adiabatic_pulse.py: timing and slice gradients only.  The signal is not modelled ([r_signal] = []);
